@@ -44,7 +44,8 @@ def relimit(rng, world, fixed=None):
     n = rng.choice([1, 2, 3, 4, 5, 6, 8, 10, 15, 1000000000, 1000000000])
     if fixed:
         d, n = fixed
-    for e in world.ents.values():
+    for i in sorted(world.ents, key=lambda i: world.ident[i]):     # canonical order: ids depend on set iteration
+        e = world.ents[i]
         obj = e.get("obj")
         if obj is not None and hasattr(obj, "meta") and (fixed or rng.random() < 0.85):
             obj.meta.graph_maxdepth = d
